@@ -45,6 +45,7 @@ type pgen struct {
 	inLoop  int
 	budget  int
 	hasS    bool // struct/interface declarations emitted
+	hasVec  bool // array-range family declarations emitted
 	nfun    int
 	lbl     int
 	inDefer int
@@ -1380,6 +1381,199 @@ func (g *pgen) structStmt(o *pout) {
 	}
 }
 
+// needVec declares the array types of the array-range family: declared array
+// types next to the unnamed ones, a named matrix, a matrix of named rows and
+// a struct with array fields of both kinds.
+func (g *pgen) needVec() {
+	if g.hasVec {
+		return
+	}
+	g.hasVec = true
+	fmt.Fprintf(&g.decl, `
+type Vec%[1]s [5]int
+
+type Dig%[1]s [4]byte
+
+type Grid%[1]s [3][3]int
+
+type Row%[1]s [3]int
+
+type GridN%[1]s [3]Row%[1]s
+
+type Box%[1]s struct {
+	V   Vec%[1]s
+	U   [5]int
+	D   Dig%[1]s
+	Tag string
+}
+`, g.id)
+}
+
+// arrRangeStmt: `for i, v := range x` over an ARRAY VALUE evaluates (copies) x
+// once, so writes to x inside the body - ahead of or behind the loop index -
+// are not seen through v; ranging over a slice of the same array, over a
+// pointer to it, or with the key only, does see them. Operands: variables of
+// declared and unnamed array types (int and byte elements), struct fields,
+// parameters, rows of matrices.
+func (g *pgen) arrRangeStmt(o *pout) {
+	g.needVec()
+	g.cat("array")
+	g.cat("range")
+	g.cat("array-range")
+	id := g.id
+	small := func(label string) string { return strconv.Itoa(g.n(-9, 40, label)) }
+	if g.n(0, 4, "arm") == 0 {
+		// matrices: the whole matrix is copied, rows written ahead are not seen
+		g.cat("array-range-matrix")
+		typ := []string{"Grid" + id, "GridN" + id, "[3][3]int", "[3]Row" + id}[g.n(0, 3, "mt")]
+		m, i, row := g.fresh(), g.fresh(), g.fresh()
+		o.line("%s := %s{{%s, 2, 3}, {4, %s, 6}, {7, 8, %s}}", m, typ, small("m0"), small("m1"), small("m2"))
+		operand := []string{m, m, m + "[:]", "&" + m}[g.n(0, 3, "mop")]
+		g.cat("array-range-" + map[bool]string{true: "snapshot", false: "live"}[operand == m])
+		o.line("for %s, %s := range %s {", i, row, operand)
+		o.line("\tif %s+1 < 3 {", i)
+		o.line("\t\t%s[%s+1][0] += %s[0] + 10", m, i, row)
+		o.line("\t\t%s[%s+1][2] = %s[1]", m, i, row)
+		o.line("\t}")
+		o.line("\tif %s > 0 {", i)
+		o.line("\t\t%s[%s-1][1] = %s[2] * 2", m, i, row)
+		o.line("\t}")
+		o.line("\temit(%q + itoa(int64(%s)) + ints(%s[:]))", "row ", i, row)
+		o.line("}")
+		o.line("emit(%q + ints(%s[0][:]) + ints(%s[1][:]) + ints(%s[2][:]))", "matrix=", m, m, m)
+		return
+	}
+	// one-dimensional arrays
+	type opnd struct {
+		decl  []string // statements before the loop
+		x     string   // the array lvalue the body writes to
+		n     int
+		byteE bool
+		named bool
+	}
+	a := g.fresh()
+	var op opnd
+	switch g.n(0, 6, "aro") {
+	case 0:
+		op = opnd{[]string{fmt.Sprintf("%s := Vec%s{%s, 2, 3, %s, 5}", a, id, small("a0"), small("a1"))}, a, 5, false, true}
+	case 1:
+		op = opnd{[]string{fmt.Sprintf("%s := [5]int{%s, 2, 3, %s, 5}", a, small("a0"), small("a1"))}, a, 5, false, false}
+	case 2:
+		op = opnd{[]string{fmt.Sprintf("%s := Dig%s{%d, 2, 3, %d}", a, id, g.n(0, 255, "d0"), g.n(0, 255, "d1"))}, a, 4, true, true}
+	case 3:
+		op = opnd{[]string{fmt.Sprintf("%s := [4]byte{%d, 2, 3, %d}", a, g.n(0, 255, "d0"), g.n(0, 255, "d1"))}, a, 4, true, false}
+	case 4:
+		op = opnd{[]string{fmt.Sprintf("%s := Box%s{V: Vec%s{%s, 2, 3, %s, 5}, Tag: \"t\"}", a, id, id, small("a0"), small("a1"))}, a + ".V", 5, false, true}
+	case 5:
+		op = opnd{[]string{fmt.Sprintf("%s := &Box%s{U: [5]int{%s, 2, 3, %s, 5}}", a, id, small("a0"), small("a1"))}, a + ".U", 5, false, false}
+	default:
+		op = opnd{[]string{fmt.Sprintf("%s := Box%s{D: Dig%s{%d, 2, 3, %d}}", a, id, id, g.n(0, 255, "d0"), g.n(0, 255, "d1"))}, a + ".D", 4, true, true}
+	}
+	g.cat("array-range-" + map[bool]string{true: "declared", false: "unnamed"}[op.named])
+	i, v := g.fresh(), g.fresh()
+	n := strconv.Itoa(op.n)
+	x := op.x
+	body := func(x string) []string {
+		switch g.n(0, 4, "arb") {
+		case 0: // rotate in place: writes ahead, the last iteration writes behind
+			return []string{fmt.Sprintf("%s[(%s+1)%%%s] = %s", x, i, n, v)}
+		case 1: // reverse in place
+			return []string{fmt.Sprintf("%s[%s-1-%s] = %s", x, n, i, v)}
+		case 2: // prefix sums written ahead
+			return []string{fmt.Sprintf("if %s+1 < %s {", i, n), fmt.Sprintf("\t%s[%s+1] += %s", x, i, v), "}"}
+		case 3: // write behind and two ahead
+			return []string{fmt.Sprintf("if %s > 0 {", i), fmt.Sprintf("\t%s[%s-1] = %s * 2", x, i, v), "}",
+				fmt.Sprintf("if %s+2 < %s {", i, n), fmt.Sprintf("\t%s[%s+2] -= %s", x, i, v), "}"}
+		default: // everything at once
+			j := g.fresh()
+			return []string{fmt.Sprintf("for %s := range %s {", j, x), fmt.Sprintf("\t%s[%s] += %s + 1", x, j, v), "}"}
+		}
+	}
+	show := func(x string) string { return "ints(" + x + "[:])" }
+	if op.byteE {
+		show = func(x string) string { return "bytesS(" + x + "[:])" }
+	}
+	form := g.n(0, 6, "arf")
+	if form == 6 {
+		// the operand is a parameter of (declared or unnamed) array type
+		g.cat("array-range-param")
+		g.cat("array-range-snapshot")
+		g.nfun++
+		fn := "arp" + id + "_" + strconv.Itoa(g.nfun)
+		ptype := map[string]string{a: "", a + ".V": "Vec" + id, a + ".U": "[5]int", a + ".D": "Dig" + id}[op.x]
+		if ptype == "" {
+			switch {
+			case op.named && op.byteE:
+				ptype = "Dig" + id
+			case op.named:
+				ptype = "Vec" + id
+			case op.byteE:
+				ptype = "[4]byte"
+			default:
+				ptype = "[5]int"
+			}
+		}
+		var fb strings.Builder
+		fmt.Fprintf(&fb, "\nfunc %s(x %s) string {\n\ts := \"\"\n\tfor %s, %s := range x {\n", fn, ptype, i, v)
+		fmt.Fprintf(&fb, "\t\t_ = %s\n", i)
+		for _, l := range body("x") {
+			fmt.Fprintf(&fb, "\t\t%s\n", l)
+		}
+		fmt.Fprintf(&fb, "\t\ts += itoa(int64(%s)) + \" \"\n\t}\n\treturn s + %s\n}\n", v, show("x"))
+		g.decl.WriteString(fb.String())
+		for _, d := range op.decl {
+			o.line("%s", d)
+		}
+		o.line("emit(%q + %s(%s) + %s)", "param=", fn, x, show(x))
+		return
+	}
+	for _, d := range op.decl {
+		o.line("%s", d)
+	}
+	acc := g.fresh()
+	o.line("%s := \"\"", acc)
+	snapshot := true
+	switch form {
+	case 0, 1:
+		o.line("for %s, %s := range %s {", i, v, x)
+	case 2:
+		// assignment form with variables declared before
+		et := "int"
+		if op.byteE {
+			et = "byte"
+		}
+		o.line("var %s int", i)
+		o.line("var %s %s", v, et)
+		o.line("for %s, %s = range %s {", i, v, x)
+	case 3:
+		// contrast: a slice of the same array is not copied
+		snapshot = false
+		o.line("for %s, %s := range %s[:] {", i, v, x)
+	case 4:
+		// contrast: a pointer to the array is not copied
+		snapshot = false
+		o.line("for %s, %s := range &%s {", i, v, x)
+	default:
+		// contrast: key-only range reads the element itself
+		snapshot = false
+		o.line("for %s := range %s {", i, x)
+		o.line("\t%s := %s[%s]", v, x, i)
+	}
+	g.cat("array-range-" + map[bool]string{true: "snapshot", false: "live"}[snapshot])
+	o.ind++
+	o.line("_ = %s", i)
+	for _, l := range body(x) {
+		o.line("%s", l)
+	}
+	o.line("%s += itoa(int64(%s)) + \" \"", acc, v)
+	o.ind--
+	o.line("}")
+	o.line("emit(%q + %s + %s)", "arrange=", acc, show(x))
+	if form == 2 {
+		o.line("emit(%q + itoa(int64(%s)) + itoa(int64(%s)))", "after=", i, v)
+	}
+}
+
 // pureFunc declares a total pure top-level function of one int parameter.
 func (g *pgen) pureFunc() string {
 	g.nfun++
@@ -2204,14 +2398,16 @@ func (g *pgen) stmtInner(o *pout, depth int) {
 		g.closureStmt(o)
 	case k < 91:
 		g.deferStmt(o, depth)
-	case k < 94:
+	case k < 93:
 		g.ifaceStmt(o)
-	case k < 96:
+	case k < 94:
+		g.ptrStmt(o)
+	case k < 95:
 		g.gotoStmt(o)
-	case k < 97:
+	case k < 96:
 		g.stringStmt(o)
 	case k < 98:
-		g.ptrStmt(o)
+		g.arrRangeStmt(o)
 	default:
 		g.extraStmt(o, depth)
 	}
@@ -2220,7 +2416,7 @@ func (g *pgen) stmtInner(o *pout, depth int) {
 // focusKinds are the statement families a fragment can be centred on: the
 // fragments of a batch take them in turn (stratified generation), so that a
 // batch of >= len(focusKinds) fragments exercises every family at least twice.
-var focusKinds = []string{"slice", "switch", "defer", "for", "range", "struct", "closure", "iface", "map", "array", "string", "goto", "ptr", "extra", "assign", "extra"}
+var focusKinds = []string{"slice", "switch", "arrrange", "defer", "for", "range", "struct", "closure", "iface", "map", "array", "string", "goto", "ptr", "extra", "assign", "extra"}
 
 func (g *pgen) focusStmt(o *pout, kind string) {
 	g.pb = 0
@@ -2230,6 +2426,8 @@ func (g *pgen) focusStmt(o *pout, kind string) {
 	switch kind {
 	case "slice":
 		g.sliceStmt(o)
+	case "arrrange":
+		g.arrRangeStmt(o)
 	case "switch":
 		g.switchStmt(o, 2)
 	case "defer":
